@@ -2369,6 +2369,146 @@ theorem zipCols_inv {b : Heap} (pairs : List (Label × Str)) :
         · obtain ⟨rfl, rfl⟩ := Prod.mk.inj hm
           exact ⟨inv.cols.1, by simp, u0, by simp⟩ }
 
+/-- `make_table_dataframe` + `from_table_info`: nothing that exists is written to, everything
+    reachable from the new info is new -/
+theorem buildTable_fresh {h2 : Heap} {name : Str} {d : Nat} {origin : Origin} {tr st : Bool}
+    {pairs : List (Label × Str)} {fr : Frame} {h' : Heap} {i' : Nat}
+    (hb : buildTable h2 name d origin tr st pairs fr = .ok (h', i')) :
+    HeapExt h2 h' ∧ ∀ x, x ∈ reach h' i' → locFresh h2 x ∧ locOld h' x := by
+  unfold buildTable at hb
+  cases hnt : newTableMeta h2 name d origin tr st with
+  | error e => simp [hnt] at hb
+  | ok q =>
+    obtain ⟨h3, mref⟩ := q
+    simp only [hnt] at hb
+    obtain ⟨hmref, xs, hxs, hh3⟩ := newTableMeta_ok hnt
+    have zinv := zipCols_inv (b := h3) pairs (h := h3) (acc := []) {
+        tmetas := rfl, dsets := rfl, infos := rfl, dicts := rfl, fmts := rfl
+        cols := Store.Ext.refl _
+        fresh := by intro l r hm; simp at hm }
+    generalize hz : zipCols (h3, []) pairs = z at hb zinv
+    obtain ⟨h4, acc⟩ := z
+    simp only at hb
+    cases hcd2 : checkDataframe
+        { h4 with dicts := (h4.dicts.alloc acc).1,
+                  infos := (h4.infos.alloc ⟨mref, h4.dicts.next, none⟩).1 } h4.infos.next fr with
+    | error e => simp [hcd2] at hb
+    | ok h6 =>
+      simp [hcd2] at hb
+      obtain ⟨rfl, rfl⟩ := hb
+      obtain ⟨inf5, hinf5, hcase⟩ := checkDataframe_ok hcd2
+      simp at hinf5
+      subst hinf5
+      rcases hcase with ⟨hlast, _⟩ | ⟨_, hdup, es, tm5, hU, accU, hes, htm5, hul, hF'⟩
+      · simp at hlast
+      simp at hes
+      subst hes
+      have hbound : ∀ l (r : Nat), (l, r) ∈ acc.filter (fun e => decide (e.1 ∈ fr.labels)) → r < h4.cols.next :=
+        fun l r hm => (zinv.fresh l r (List.mem_filter.1 hm).1).2.1
+      have upd := updLoop_inv (b := _) fr.cols hul (UpdInv.init fr.empty _ _ hbound)
+      simp only [List.nil_append] at upd
+      have e3c : h3.cols = h2.cols := by rw [hh3]
+      have e3f : h3.fmts = h2.fmts := by rw [hh3]
+      have e3d : h3.dicts = h2.dicts := by rw [hh3]
+      have e3i : h3.infos = h2.infos := by rw [hh3]
+      have hcolsF : h6.cols = hU.cols := by rw [hF']
+      have hfmtsF : h6.fmts = h2.fmts := by
+        rw [hF']; show hU.fmts = _; rw [upd.fmts]; show h4.fmts = _; rw [zinv.fmts, e3f]
+      have hdsF : h6.dsets = h3.dsets := by
+        rw [hF']; show hU.dsets = _; rw [upd.dsets]; show h4.dsets = _; rw [zinv.dsets]
+      have htmF : h6.tmetas = h3.tmetas := by
+        rw [hF']; show hU.tmetas = _; rw [upd.tmetas]; show h4.tmetas = _; rw [zinv.tmetas]
+      have hdiF : h6.dicts = (h2.dicts.alloc acc).1.write h2.dicts.next
+            (fr.labels.filterMap (fun l => (assoc accU l).map (fun r => (l, r)))) := by
+        rw [hF']; show hU.dicts.write _ _ = _; rw [upd.dicts]
+        show (h4.dicts.alloc acc).1.write h4.dicts.next _ = _
+        rw [zinv.dicts, e3d]
+      have hinF : h6.infos = (h2.infos.alloc ⟨mref, h2.dicts.next, none⟩).1.write h2.infos.next
+            ⟨mref, h2.dicts.next, some fr.state⟩ := by
+        rw [hF']; show hU.infos.write _ _ = _; rw [upd.infos]
+        show (h4.infos.alloc ⟨mref, h4.dicts.next, none⟩).1.write h4.infos.next _ = _
+        rw [zinv.infos, e3i, zinv.dicts, e3d]
+      have hds3 : h3.dsets = (h2.dsets.alloc xs.eraseDups).1 := by rw [hh3]
+      have htm3 : h3.tmetas = (h2.tmetas.alloc ⟨name, d, origin, tr, st⟩).1.write h2.tmetas.next
+          ⟨name, h2.dsets.next, origin, tr, st⟩ := by rw [hh3]
+      have ext : HeapExt h2 h6 := {
+        dsets := by rw [hdsF, hds3]; exact Store.Ext.alloc _ _
+        fmts := Store.Ext.of_eq hfmtsF
+        cols := by
+          rw [hcolsF, ← e3c]
+          exact Store.Ext.trans zinv.cols upd.cols
+        dicts := by rw [hdiF]; exact Store.Ext.write (Store.Ext.alloc _ _) _ _ (Nat.le_refl _)
+        tmetas := by rw [htmF, htm3]; exact Store.Ext.write (Store.Ext.alloc _ _) _ _ (Nat.le_refl _)
+        infos := by rw [hinF]; exact Store.Ext.write (Store.Ext.alloc _ _) _ _ (Nat.le_refl _) }
+      refine ⟨ext, ?_⟩
+      have hi'eq : h4.infos.next = h2.infos.next := by rw [zinv.infos, e3i]
+      intro x hx
+      rw [mem_reach] at hx
+      rcases hx with rfl | ⟨inf, hi, h1'⟩
+      · exact ⟨by show h2.infos.next ≤ h4.infos.next; rw [hi'eq]; exact Nat.le_refl _, by
+          show h4.infos.next < h6.infos.next
+          rw [hinF, hi'eq]; exact Nat.lt_succ_self _⟩
+      · rw [hinF, hi'eq] at hi
+        simp at hi
+        subst hi
+        rcases h1' with rfl | rfl | ⟨tm', htm', rfl⟩ | ⟨es', l, r, hes', hm, h1'⟩
+        · refine ⟨by show h2.tmetas.next ≤ mref; rw [hmref]; exact Nat.le_refl _, ?_⟩
+          show mref < h6.tmetas.next
+          rw [htmF, htm3, hmref]; exact Nat.lt_succ_self _
+        · refine ⟨Nat.le_refl _, ?_⟩
+          show h2.dicts.next < h6.dicts.next
+          rw [hdiF]; exact Nat.lt_succ_self _
+        · rw [htmF, htm3, hmref] at htm'
+          simp at htm'
+          subst htm'
+          refine ⟨Nat.le_refl _, ?_⟩
+          show h2.dsets.next < h6.dsets.next
+          rw [hdsF, hds3]; exact Nat.lt_succ_self _
+        · rw [hdiF] at hes'
+          simp at hes'
+          subst hes'
+          have hacc := mem_ordered (fun l => assoc accU l) fr.labels l r hm
+          have hbU : r < h6.cols.next := by rw [hcolsF]; exact upd.bound l r (assoc_mem hacc)
+          have hcol : h2.cols.next ≤ r ∧ ∃ u, h6.cols.get r = some ⟨u, none, none⟩ := by
+            cases hk' : assoc (acc.filter (fun e => decide (e.1 ∈ fr.labels))) l with
+            | some r0 =>
+              have := upd.old l r0 hk'
+              rw [hacc] at this
+              have hrr : r = r0 := Option.some.inj this
+              subst hrr
+              obtain ⟨b1, b2, u, hu⟩ := zinv.fresh l r (List.mem_filter.1 (assoc_mem hk')).1
+              refine ⟨by rw [← e3c]; exact b1, u, ?_⟩
+              rw [hcolsF, upd.cols.2 r b2]; exact hu
+            | none =>
+              obtain ⟨_, b2, k, u, _, _, hget⟩ := upd.new l r hacc hk'
+              refine ⟨?_, u, by rw [hcolsF, hget]⟩
+              have := zinv.cols.1
+              rw [e3c] at this
+              exact Nat.le_trans this b2
+          rcases h1' with rfl | ⟨cm2, f, hc2, hf2, rfl⟩
+          · exact ⟨hcol.1, hbU⟩
+          · obtain ⟨u, hu⟩ := hcol.2
+            rw [hu] at hc2
+            have : cm2 = ⟨u, none, none⟩ := (Option.some.inj hc2).symm
+            subst this
+            simp at hf2
+
+theorem destsArg_ext (h : Heap) (old : Nat) (xs : Option (List Str)) : HeapExt h (destsArg h old xs).1 := by
+  cases xs with
+  | none => exact HeapExt.refl _
+  | some ys =>
+    exact ⟨Store.Ext.alloc _ _, Store.Ext.refl _, Store.Ext.refl _, Store.Ext.refl _, Store.Ext.refl _,
+      Store.Ext.refl _⟩
+
+theorem locFresh_mono {h h' : Heap} (e : HeapExt h h') {x : Loc} (hx : locFresh h' x) : locFresh h x := by
+  cases x with
+  | dset r => exact Nat.le_trans e.dsets.1 hx
+  | fmt r => exact Nat.le_trans e.fmts.1 hx
+  | col r => exact Nat.le_trans e.cols.1 hx
+  | dict r => exact Nat.le_trans e.dicts.1 hx
+  | tmeta r => exact Nat.le_trans e.tmetas.1 hx
+  | info r => exact Nat.le_trans e.infos.1 hx
+
 /-- **re-wrapping** a table frame with overriding name / destinations / units / transposed builds a
     new info out of new objects only: after the consultation `get_table_info` performs on the
     original (`checkDataframe`, which every read access performs anyway) nothing that exists is
@@ -2396,159 +2536,9 @@ theorem rewrap_fresh {h : Heap} {i : Nat} {fr : Frame} {kw : Kw} {h' : Heap} {i'
         | error e => simp [hco] at hr
         | ok cs =>
           simp only [hco] at hr
-          -- the destinations object handed to the constructor
-          generalize hd : (match kw.dests with
-            | none => (h1, tm.dests)
-            | some xs => ({ h1 with dsets := (h1.dsets.alloc xs).1 }, (h1.dsets.alloc xs).2)) = hd2 at hr
-          obtain ⟨h2, d⟩ := hd2
-          have h2ext : HeapExt h1 h2 ∧ h2.cols = h1.cols ∧ h2.fmts = h1.fmts ∧ h2.dicts = h1.dicts ∧
-              h2.tmetas = h1.tmetas ∧ h2.infos = h1.infos := by
-            cases hkd : kw.dests with
-            | none =>
-              simp [hkd] at hd
-              obtain ⟨rfl, rfl⟩ := hd
-              exact ⟨HeapExt.refl _, rfl, rfl, rfl, rfl, rfl⟩
-            | some xs =>
-              simp [hkd] at hd
-              obtain ⟨rfl, rfl⟩ := hd
-              exact ⟨⟨Store.Ext.alloc _ _, Store.Ext.refl _, Store.Ext.refl _, Store.Ext.refl _,
-                Store.Ext.refl _, Store.Ext.refl _⟩, rfl, rfl, rfl, rfl, rfl⟩
-          simp only at hr
-          cases hnt : newTableMeta h2 (kw.name.getD tm.name) d tm.origin (kw.transposed.getD tm.transposed) tm.strict with
-          | error e => simp [hnt] at hr
-          | ok q =>
-            obtain ⟨h3, mref⟩ := q
-            simp only [hnt] at hr
-            obtain ⟨hmref, xs, hxs, hh3⟩ := newTableMeta_ok hnt
-            have zinv := zipCols_inv (b := h3) (fr.labels.zip (kw.units.getD (cs.map (fun c => c.2.unit))))
-              (h := h3) (acc := []) {
-                tmetas := rfl, dsets := rfl, infos := rfl, dicts := rfl, fmts := rfl
-                cols := Store.Ext.refl _
-                fresh := by intro l r hm; simp at hm }
-            generalize hz : zipCols (h3, []) (fr.labels.zip (kw.units.getD (cs.map (fun c => c.2.unit)))) = z at hr zinv
-            obtain ⟨h4, acc⟩ := z
-            simp only [Store.alloc] at hr
-            cases hcd2 : checkDataframe
-                { h4 with dicts := ⟨h4.dicts.next + 1, fun r => if r = h4.dicts.next then some acc else h4.dicts.get r⟩,
-                          infos := ⟨h4.infos.next + 1, fun r => if r = h4.infos.next then
-                            some ⟨mref, h4.dicts.next, none⟩ else h4.infos.get r⟩ } h4.infos.next fr with
-            | error e => simp [hcd2] at hr
-            | ok h6 =>
-              simp [hcd2] at hr
-              obtain ⟨rfl, rfl⟩ := hr
-              obtain ⟨hE12, c12, f12, di12, tm12, in12⟩ := h2ext
-              -- the heap handed to the second consultation
-              obtain ⟨inf5, hinf5, hcase⟩ := checkDataframe_ok hcd2
-              simp at hinf5
-              subst hinf5
-              rcases hcase with ⟨hlast, _⟩ | ⟨_, hdup, es, tm5, hU, accU, hes, htm5, hul, hF'⟩
-              · simp at hlast
-              simp at hes
-              subst hes
-              have hbound : ∀ l (r : Nat), (l, r) ∈ acc.filter (fun e => decide (e.1 ∈ fr.labels)) → r < h4.cols.next :=
-                fun l r hm => (zinv.fresh l r (List.mem_filter.1 hm).1).2.1
-              have upd := updLoop_inv (b := _) fr.cols hul (UpdInv.init fr.empty _ _ hbound)
-              simp only [List.nil_append] at upd
-              -- field by field: h3 from h2 from h1
-              have e3c : h3.cols = h1.cols := by rw [hh3]; exact c12
-              have e3f : h3.fmts = h1.fmts := by rw [hh3]; exact f12
-              have e3d : h3.dicts = h1.dicts := by rw [hh3]; exact di12
-              have e3i : h3.infos = h1.infos := by rw [hh3]; exact in12
-              have hcolsF : h6.cols = hU.cols := by rw [hF']
-              have hfmtsF : h6.fmts = h1.fmts := by
-                rw [hF']; show hU.fmts = _; rw [upd.fmts]; show h4.fmts = _; rw [zinv.fmts, e3f]
-              have hdsF : h6.dsets = h3.dsets := by
-                rw [hF']; show hU.dsets = _; rw [upd.dsets]; show h4.dsets = _; rw [zinv.dsets]
-              have htmF : h6.tmetas = h3.tmetas := by
-                rw [hF']; show hU.tmetas = _; rw [upd.tmetas]; show h4.tmetas = _; rw [zinv.tmetas]
-              have hdiF : h6.dicts = (⟨h1.dicts.next + 1, fun r => if r = h1.dicts.next then some es else h1.dicts.get r⟩ :
-                  Store (List (Label × Ref))).write h1.dicts.next
-                    (fr.labels.filterMap (fun l => (assoc accU l).map (fun r => (l, r)))) := by
-                rw [hF']; show hU.dicts.write _ _ = _; rw [upd.dicts]
-                show (⟨h4.dicts.next + 1, _⟩ : Store (List (Label × Ref))).write h4.dicts.next _ = _
-                rw [zinv.dicts, e3d]
-              have hinF : h6.infos = (⟨h1.infos.next + 1, fun r => if r = h1.infos.next then
-                  some ⟨mref, h1.dicts.next, none⟩ else h1.infos.get r⟩ : Store Info).write h1.infos.next
-                    ⟨mref, h1.dicts.next, some fr.state⟩ := by
-                rw [hF']; show hU.infos.write _ _ = _; rw [upd.infos]
-                show (⟨h4.infos.next + 1, _⟩ : Store Info).write h4.infos.next _ = _
-                rw [zinv.infos, e3i, zinv.dicts, e3d]
-              have hds3 : h3.dsets = (h2.dsets.alloc xs.eraseDups).1 := by rw [hh3]
-              have htm3 : h3.tmetas = (h2.tmetas.alloc ⟨kw.name.getD tm.name, d, tm.origin,
-                  kw.transposed.getD tm.transposed, tm.strict⟩).1.write h2.tmetas.next
-                  ⟨kw.name.getD tm.name, h2.dsets.next, tm.origin, kw.transposed.getD tm.transposed, tm.strict⟩ := by
-                rw [hh3]
-              have ext16 : HeapExt h1 h6 := {
-                dsets := by rw [hdsF, hds3]; exact Store.Ext.trans hE12.dsets (Store.Ext.alloc _ _)
-                fmts := Store.Ext.of_eq hfmtsF
-                cols := by
-                  rw [hcolsF, ← e3c]
-                  exact Store.Ext.trans zinv.cols upd.cols
-                dicts := by
-                  rw [hdiF]
-                  exact Store.Ext.write ⟨Nat.le_succ _, fun r hr => by
-                    have : r ≠ h1.dicts.next := Nat.ne_of_lt hr
-                    simp [this]⟩ _ _ (Nat.le_refl _)
-                tmetas := by
-                  rw [htmF, htm3, tm12]
-                  exact Store.Ext.write (Store.Ext.alloc _ _) _ _ (Nat.le_refl _)
-                infos := by
-                  rw [hinF]
-                  exact Store.Ext.write ⟨Nat.le_succ _, fun r hr => by
-                    have : r ≠ h1.infos.next := Nat.ne_of_lt hr
-                    simp [this]⟩ _ _ (Nat.le_refl _) }
-              refine ⟨ext16, ?_⟩
-              have hi'eq : h4.infos.next = h1.infos.next := by rw [zinv.infos, e3i]
-              intro x hx
-              rw [mem_reach] at hx
-              rcases hx with rfl | ⟨inf, hi, h1'⟩
-              · exact ⟨by show h1.infos.next ≤ h4.infos.next; rw [hi'eq]; exact Nat.le_refl _, by
-                  show h4.infos.next < h6.infos.next
-                  rw [hinF, hi'eq]; exact Nat.lt_succ_self _⟩
-              · rw [hinF, hi'eq] at hi
-                simp at hi
-                subst hi
-                rcases h1' with rfl | rfl | ⟨tm', htm', rfl⟩ | ⟨es', l, r, hes', hm, h1'⟩
-                · refine ⟨by show h1.tmetas.next ≤ mref; rw [hmref, tm12]; exact Nat.le_refl _, ?_⟩
-                  show mref < h6.tmetas.next
-                  rw [htmF, htm3, hmref]; exact Nat.lt_succ_self _
-                · refine ⟨Nat.le_refl _, ?_⟩
-                  show h1.dicts.next < h6.dicts.next
-                  rw [hdiF]; exact Nat.lt_succ_self _
-                · rw [htmF, htm3, hmref] at htm'
-                  simp at htm'
-                  subst htm'
-                  refine ⟨by show h1.dsets.next ≤ h2.dsets.next; exact hE12.dsets.1, ?_⟩
-                  show h2.dsets.next < h6.dsets.next
-                  rw [hdsF, hds3]; exact Nat.lt_succ_self _
-                · rw [hdiF] at hes'
-                  simp at hes'
-                  subst hes'
-                  have hacc := mem_ordered (fun l => assoc accU l) fr.labels l r hm
-                  have hbU : r < h6.cols.next := by rw [hcolsF]; exact upd.bound l r (assoc_mem hacc)
-                  have hcol : h1.cols.next ≤ r ∧ ∃ u, h6.cols.get r = some ⟨u, none, none⟩ := by
-                    cases hk' : assoc (es.filter (fun e => decide (e.1 ∈ fr.labels))) l with
-                    | some r0 =>
-                      have := upd.old l r0 hk'
-                      rw [hacc] at this
-                      have hrr : r = r0 := Option.some.inj this
-                      subst hrr
-                      obtain ⟨b1, b2, u, hu⟩ := zinv.fresh l r (List.mem_filter.1 (assoc_mem hk')).1
-                      refine ⟨by rw [← e3c]; exact b1, u, ?_⟩
-                      rw [hcolsF, upd.cols.2 r b2]; exact hu
-                    | none =>
-                      obtain ⟨_, b2, k, u, _, _, hget⟩ := upd.new l r hacc hk'
-                      refine ⟨?_, u, by rw [hcolsF, hget]⟩
-                      have := zinv.cols.1
-                      rw [e3c] at this
-                      exact Nat.le_trans this b2
-                  rcases h1' with rfl | ⟨cm2, f, hc2, hf2, rfl⟩
-                  · exact ⟨hcol.1, hbU⟩
-                  · obtain ⟨u, hu⟩ := hcol.2
-                    rw [hu] at hc2
-                    have : cm2 = ⟨u, none, none⟩ := (Option.some.inj hc2).symm
-                    subst this
-                    simp at hf2
+          obtain ⟨ext, hfresh⟩ := buildTable_fresh hr
+          have e12 := destsArg_ext h1 tm.dests kw.dests
+          exact ⟨e12.trans ext, fun x hx => ⟨locFresh_mono e12 (hfresh x hx).1, (hfresh x hx).2⟩⟩
 
 /-- **re-wrap independence**: the re-wrapped table and the original are separated, and the original
     is observed exactly as the consultation left it — so by `mutation_independence` no later change
@@ -2572,5 +2562,104 @@ theorem rewrap_no_kwargs {h : Heap} {i : Nat} {fr : Frame} {kw : Kw} (hk : kw.is
     rewrap h i fr kw = .ok (h, i) := by
   unfold rewrap
   simp [hk]
+
+
+/-! ## Non-vacuity: a concrete store with two tables, the theorems' hypotheses hold on it -/
+
+namespace Example
+
+def originT : Origin := .node (some "L1".toList) [] none
+def originU : Origin := .node none [.node (some "L2".toList) [] none, .node (some "L3".toList) [] none] (some "made up".toList)
+
+/-- table `t`: columns a [m] (format .2f), b [text]; destinations {all, d2}; read from L1.
+    table `u`: columns a [m], c [onoff]; destinations {x}; derived from L2, L3; not strict. -/
+def heap : Heap where
+  dsets := ⟨2, fun r => if r = 0 then some ["all".toList, "d2".toList] else if r = 1 then some ["x".toList] else none⟩
+  fmts := ⟨1, fun r => if r = 0 then some ".2f".toList else none⟩
+  cols := ⟨4, fun r =>
+    if r = 0 then some ⟨"m".toList, none, some 0⟩ else if r = 1 then some ⟨"text".toList, some "x".toList, none⟩
+    else if r = 2 then some ⟨"m".toList, none, none⟩ else if r = 3 then some ⟨"onoff".toList, none, none⟩ else none⟩
+  dicts := ⟨2, fun r =>
+    if r = 0 then some [("a".toList, 0), ("b".toList, 1)] else if r = 1 then some [("a".toList, 2), ("c".toList, 3)] else none⟩
+  tmetas := ⟨2, fun r =>
+    if r = 0 then some ⟨"t".toList, 0, originT, false, true⟩ else if r = 1 then some ⟨"u".toList, 1, originU, false, false⟩
+    else none⟩
+  infos := ⟨2, fun r => if r = 0 then some ⟨0, 0, none⟩ else if r = 1 then some ⟨1, 1, none⟩ else none⟩
+
+/-- result frame of `pd.concat([t, u, plain])`: a, b, c survive, z is new -/
+def frame : Frame :=
+  ⟨[("a".toList, "float64".toList, 'f'), ("b".toList, "object".toList, 'O'), ("c".toList, "bool".toList, 'b'),
+    ("z".toList, "int64".toList, 'i')], false⟩
+
+def other : Other := ⟨none, none, some [some 0, some 1, none]⟩
+
+/-- what a reader sees of the result: name, destinations, (label, unit) pairs, input ancestors -/
+def view (r : Except Err (Heap × Res × List Warn)) :
+    Option (Str × List Str × List (Label × Str) × Option (List Str)) :=
+  match r with
+  | .ok (h', .table i, _) =>
+    (observe h' i).map (fun o => (o.name, o.dests, o.cols.map (fun c => (c.label, c.unit)), o.origin.ancestors.toOption))
+  | _ => none
+
+example : view (finalize heap (some "concat".toList) none other frame) =
+    some ("t".toList, ["all".toList, "d2".toList],
+      [("a".toList, "m".toList), ("b".toList, "text".toList), ("c".toList, "onoff".toList), ("z".toList, "-".toList)],
+      some ["L1".toList, "L2".toList, "L3".toList]) := by rfl
+
+/-- the same two tables with `a` in mm in the second one: refused -/
+def clashHeap : Heap := { heap with cols := heap.cols.write 2 ⟨"mm".toList, none, none⟩ }
+
+example : (match finalize clashHeap (some "concat".toList) none other frame with
+    | .error .invalidTableCombine => true | _ => false) = true := by decide
+
+/-- hypotheses of `combine_refuses_unit_clash` on that input -/
+example : Spec.sources (some "concat".toList) other = .ok ([some 0, some 1, none], false) ∧
+    unitOf clashHeap 0 "a".toList = some "m".toList ∧ unitOf clashHeap 1 "a".toList = some "mm".toList ∧
+    "a".toList ∈ frame.labels := ⟨rfl, rfl, rfl, by decide⟩
+
+/-- no source with info (arithmetic with a scalar): plain frame, warning, store untouched -/
+example : (match finalize heap none none ⟨none, none, none⟩ frame with
+    | .ok (_, .plain, w) => w | _ => []) = [Warn.fallback] := by decide
+
+/-- an unknown method warns and still carries the units along -/
+example : (match finalize heap (some "apply".toList) none ⟨some 0, none, none⟩ frame with
+    | .ok (_, .table _, w) => w | _ => []) = [Warn.unknownMethod] := by decide
+
+instance (h : Heap) (x : Loc) : Decidable (locOld h x) := by
+  cases x <;> unfold locOld <;> infer_instance
+
+/-- hypothesis `Alloc` of `finalize_separates`: both source infos are completely allocated -/
+example : Alloc heap 0 ∧ Alloc heap 1 := by
+  unfold Alloc
+  decide
+
+/-- follow-up mutations on the result run (hypothesis of `mutation_independence`), and the source
+    is observed as before while the result has changed -/
+example : (match finalize heap (some "concat".toList) none other frame with
+    | .ok (h', .table i, _) =>
+      (match mutateAll h' i [.setUnit "a".toList "km".toList, .setName "renamed".toList, .addDest "d9".toList,
+                             .addColumn "nw".toList "s".toList, .setFmt "a".toList ".9f".toList] with
+       | .ok h'' => ((observe h'' 0).map (fun o => (o.name, o.dests, o.cols.map (fun c => (c.unit, c.fmt)))),
+                     (observe h'' i).map (fun o => (o.name, o.dests, o.cols.map (fun c => (c.unit, c.fmt)))))
+       | .error _ => (none, none))
+    | _ => (none, none)) =
+    (some ("t".toList, ["all".toList, "d2".toList], [("m".toList, some ".2f".toList), ("text".toList, none)]),
+     some ("renamed".toList, ["all".toList, "d2".toList, "d9".toList],
+       [("km".toList, some ".9f".toList), ("text".toList, none), ("onoff".toList, none), ("-".toList, none),
+        ("s".toList, none)])) := by rfl
+
+/-- re-wrap with an overriding name and units (hypotheses of `rewrap_independent`) -/
+def frameT : Frame := ⟨[("a".toList, "float64".toList, 'f'), ("b".toList, "object".toList, 'O')], false⟩
+def kw : Kw := ⟨some "wrapped".toList, none, some ["mm".toList, "text".toList], none⟩
+
+example : kw.isEmpty = false ∧
+    (match rewrap heap 0 frameT kw with
+     | .ok (h', i') => ((observe h' i').map (fun o => (o.name, o.dests, o.cols.map (fun c => c.unit))),
+                        (observe h' 0).map (fun o => (o.name, o.cols.map (fun c => c.unit))))
+     | .error _ => (none, none)) =
+    (some ("wrapped".toList, ["all".toList, "d2".toList], ["mm".toList, "text".toList]),
+     some ("t".toList, ["m".toList, "text".toList])) := by decide
+
+end Example
 
 end Pdt.C05
